@@ -730,6 +730,13 @@ func (c *Ctx) havocWrites(fr *Frame, st *State, ws *writeSet, tag string) {
 			// refs written directly in the loop stay unknown; every other object older than the loop is unchanged
 			var excl []string
 			whole := false
+			if !strings.HasPrefix(ws.kept[k], "(Array") {
+				// a kept scalar (ghost variable): unchanged unless the loop body itself writes it
+				if len(ws.comps[k+"\x00"+ws.kept[k]]) == 0 {
+					st.heap[k] = terms[i]
+				}
+				continue
+			}
 			for r := range ws.comps[k+"\x00"+ws.kept[k]] {
 				if r == "" || c.bornAfter(r, st) {
 					whole = true
